@@ -27,6 +27,7 @@ class Observer:
         self.cb_raise_at: int | None = None
         self.stray: list[tuple] = []
         self.seqfn = seqfn
+        self.batch_hook: Any = None  # optional callable(AnnotatedBatch) invoked for every stream batch handed to the caller
 
     def on_log(self, msg: Any) -> None:
         extras = dict(msg.extra or {})
@@ -138,6 +139,8 @@ def drive(proxy: Any, svc: Service, call: Call, ob: Observer, *, after_cancel_pr
                 else:
                     ab = sess.exchange(make_input(call, i))
                 tr.append(_batch_ev(ab))
+                if ob.batch_hook is not None:
+                    ob.batch_hook(ab)
                 return False
             except StopIteration:
                 tr.append(("end",))
